@@ -399,4 +399,86 @@ theorem first_run (b : VBody) (co : Co b.σ) (held : Y) (mc : Bool) (F : Futs) (
             taskWakeup]
         exact taskFinish_map Cont.relay _ _
 
+/-! ### the plain Task never takes the "no handshake" branch and leaves no flag set -/
+
+def Clean {κ : Type} (s : K κ) : Prop := s.task.hsErr = false ∧ ∀ g, (s.futs g).blocking = false
+
+theorem notify_hsErr (t : Task) (f : Nat) : (notify t f).hsErr = t.hsErr := by
+  simp only [notify]; split <;> rfl
+
+theorem set_blocking (F : Futs) (f : Nat) (x : Fut) (hx : x.blocking = false)
+    (h : ∀ g, (F g).blocking = false) : ∀ g, (F.set f x g).blocking = false := by
+  intro g; simp only [Futs.set]; split
+  · exact hx
+  · exact h g
+
+theorem envStep_clean (t : Task) (F : Futs) (e : Ev) (h1 : t.hsErr = false)
+    (h2 : ∀ g, (F g).blocking = false) :
+    (envStep t F e).1.hsErr = false ∧ ∀ g, ((envStep t F e).2 g).blocking = false := by
+  have hfin : ∀ f st, (finishFut t F f st).1.hsErr = false
+      ∧ ∀ g, ((finishFut t F f st).2 g).blocking = false := by
+    intro f st
+    simp only [finishFut]; split
+    · exact ⟨by rw [notify_hsErr]; exact h1, set_blocking _ _ _ (h2 f) h2⟩
+    · exact ⟨h1, h2⟩
+  cases e with
+  | run => exact ⟨h1, h2⟩
+  | resolve f v => exact hfin _ _
+  | fail f x => exact hfin _ _
+  | cancelFut f => exact hfin _ _
+  | clearFlag f => exact ⟨h1, set_blocking _ _ _ rfl h2⟩
+  | cancel =>
+    simp only [envStep, taskCancel]
+    split
+    · exact ⟨h1, h2⟩
+    · split
+      · exact ⟨h1, h2⟩
+      · split
+        · split
+          · exact ⟨h1, set_blocking _ _ _ (h2 _) h2⟩
+          · exact ⟨by rw [notify_hsErr]; exact h1, set_blocking _ _ _ (h2 _) h2⟩
+        · exact ⟨h1, h2⟩
+
+theorem taskFinish_clean {κ : Type} (t : Task) (x : κ × Out × Futs) (F : Futs) (ht : t.hsErr = false)
+    (hF : ∀ g, (F g).blocking = false)
+    (hx : x.2.2 = match x.2.1 with
+      | .yield y => Co.armYield y F
+      | _ => F) : Clean (taskFinish t x) := by
+  obtain ⟨a, o, F'⟩ := x
+  simp only at hx
+  subst hx
+  cases o with
+  | ret v => exact ⟨ht, hF⟩
+  | raise e => exact ⟨ht, hF⟩
+  | yield y =>
+    cases y with
+    | bare => exact ⟨ht, hF⟩
+    | tok n => exact ⟨ht, hF⟩
+    | fut f =>
+      simp only [taskFinish, Co.armYield, setFlag_same, if_true, Clean]
+      refine ⟨ht, ?_⟩
+      rw [setFlag_setFlag]
+      exact set_blocking _ _ _ rfl hF
+
+theorem kstep_plain_clean (b : VBody) (s : K (Co b.σ)) (e : Ev) (h : Clean s) :
+    Clean (kstep (coStep b) s e) := by
+  have hstep : ∀ exc, Clean (taskStep (coStep b) s exc) := by
+    intro exc
+    exact taskFinish_clean _ _ s.futs h.1 h.2 (Co.resume_futs b s.co _ s.futs)
+  by_cases he : e = .run
+  · subst he
+    simp only [kstep]
+    split
+    · exact hstep _
+    · simp only [taskWakeup]; split <;> first | exact h | exact hstep _
+    · exact h
+  · rw [kstep_env _ _ _ he]
+    exact envStep_clean _ _ _ h.1 h.2
+
+theorem runK_plain_clean (b : VBody) (s : K (Co b.σ)) (es : List Ev) (h : Clean s) :
+    Clean (runK (coStep b) s es) := by
+  induction es generalizing s with
+  | nil => exact h
+  | cons e es ih => exact ih _ (kstep_plain_clean b s e h)
+
 end Asynkit.Eager
